@@ -189,27 +189,73 @@ func leaves(l gts.Location) []gts.Location {
 	}
 }
 
-// outerMarks: partial flag at the low end of the first residue-bearing leaf
-// and at the high end of the last residue-bearing leaf (list order).
-func outerMarks(l gts.Location) (low, high bool) {
-	ls := leaves(l)
-	first, last := -1, -1
-	for i, u := range ls {
-		if u.Len() > 0 {
-			if first < 0 {
-				first = i
+// dleaf: a leaf in reading (denotation) order; rev = on the complement strand.
+type dleaf struct {
+	l   gts.Location
+	rev bool
+}
+
+// denLeaves: the leaves in the order in which their residues are read.
+func denLeaves(l gts.Location) []dleaf {
+	switch v := l.(type) {
+	case gts.Joined:
+		var out []dleaf
+		for _, u := range v {
+			out = append(out, denLeaves(u)...)
+		}
+		return out
+	case gts.Ordered:
+		var out []dleaf
+		for _, u := range v {
+			out = append(out, denLeaves(u)...)
+		}
+		return out
+	case gts.Complemented:
+		in := denLeaves(v.Location)
+		out := make([]dleaf, len(in))
+		for i, d := range in {
+			out[len(in)-1-i] = dleaf{d.l, !d.rev}
+		}
+		return out
+	default:
+		return []dleaf{{l, false}}
+	}
+}
+
+// outerLeaves: first and last residue-bearing leaf in reading order.
+func outerLeaves(l gts.Location) (first, last dleaf, ok bool) {
+	for _, d := range denLeaves(l) {
+		if d.l.Len() > 0 {
+			if !ok {
+				first = d
+				ok = true
 			}
-			last = i
+			last = d
 		}
 	}
-	if first < 0 {
+	return
+}
+
+// outerMarks: is the 5' end (before the first residue read) / the 3' end
+// (after the last residue read) of the feature marked partial?
+func outerMarks(l gts.Location) (m5, m3 bool) {
+	first, last, ok := outerLeaves(l)
+	if !ok {
 		return false, false
 	}
-	if r, ok := ls[first].(gts.Ranged); ok {
-		low = r.Partial.Partial5
+	if r, ok := first.l.(gts.Ranged); ok {
+		if first.rev {
+			m5 = r.Partial.Partial3
+		} else {
+			m5 = r.Partial.Partial5
+		}
 	}
-	if r, ok := ls[last].(gts.Ranged); ok {
-		high = r.Partial.Partial3
+	if r, ok := last.l.(gts.Ranged); ok {
+		if last.rev {
+			m3 = r.Partial.Partial5
+		} else {
+			m3 = r.Partial.Partial3
+		}
 	}
 	return
 }
